@@ -727,6 +727,7 @@ JCopyState(e, st) ==
 \* a State object changed in place through its public containers (a fact added to / removed from
 \* state_predicates, set_value on a fluent): by contract the handle denotes the edited value from
 \* then on - later applicability answers and successors are judged against it
+VerOf(st, s) == IF "ver" \in DOMAIN st[s] THEN st[s].ver ELSE 0     \* in-place edits the state object has seen
 JEditState(e, st) ==
   LET old == st[e.s].st
       fact == <<e.fact[1], e.fact[2]>>
@@ -735,7 +736,7 @@ JEditState(e, st) ==
                        ELSE IF e.how = "unset" THEN [g \in DOMAIN old.fl \ {<<e.f, e.a>>} |-> old.fl[g]]
                        ELSE old.fl)]
       got == StOfJson(e.out.st)
-      s2 == Put(st, e.s, [kind |-> "state", st |-> got, hdr |-> st[e.s].hdr])
+      s2 == Put(st, e.s, [kind |-> "state", st |-> got, hdr |-> st[e.s].hdr, ver |-> VerOf(st, e.s) + 1])
   IN  IF ~Has(e.out, "st") THEN Fail("EditState:exception", st)
       ELSE IF /\ StJsonClean(e.out.st) /\ StEq(want, got) /\ e.out.st.hdr = st[e.s].hdr
               /\ (e.how = "set" => got.ex[<<e.f, e.a>>] = e.x)        \* the value that was set, exactly
@@ -752,6 +753,23 @@ JNewOperator(e, st) ==
 OpEvent(e, st) == [d |-> st[e.op].d, u |-> st[e.op].u, act |-> st[e.op].act, args |-> st[e.op].args, s |-> e.s,
                    h |-> (IF Has(e, "h") THEN e.h ELSE "none"), out |-> e.out,
                    allow |-> (IF Has(e, "allow") THEN e.allow ELSE FALSE), skip |-> (IF Has(e, "skip") THEN e.skip ELSE FALSE)]
+
+\* Repeating a call returns the same result (C07), also where the semantics leaves the result open:
+\* the same Operator object asked about / applied to the same, unedited state object with the same flags.
+\* The store remembers the first answer under a key made of the operator handle, the state handle, the
+\* number of in-place edits the state has seen, the flags and the kind of call.
+RepKey(e, st, kind) == "rep|" \o e.op \o "|" \o e.s \o "|" \o ToString(VerOf(st, e.s)) \o "|" \o kind
+                       \o (IF Has(e, "allow") /\ e.allow THEN "|allow" ELSE "") \o (IF Has(e, "skip") /\ e.skip THEN "|skip" ELSE "")
+RepObs(e) == IF Has(e.out, "exc") THEN [exc |-> TRUE]
+             ELSE IF Has(e.out, "val") THEN [exc |-> FALSE, val |-> e.out.val]
+             ELSE [exc |-> FALSE, st |-> [facts |-> StOfJson(e.out.st).facts, fl |-> StOfJson(e.out.st).fl]]
+JRepeat(e, st, kind, r) ==
+  LET k == RepKey(e, st, kind)
+      obs == RepObs(e)
+  IN  IF r.v # "" THEN r
+      ELSE IF k \in DOMAIN r.s
+           THEN (IF r.s[k].obs = obs THEN r ELSE [r EXCEPT !.v = "Repeat:" \o kind])
+           ELSE [r EXCEPT !.s = Put(r.s, k, [kind |-> "memo", obs |-> obs])]
 
 \* Purity: every live handle still has the value the store holds for it
 SnapOk(h, v, st) ==
@@ -808,8 +826,8 @@ Judge(e, st) ==
     [] e.c = "StateEq"      -> JStateEq(e, st)
     [] e.c = "EditState"    -> JEditState(e, st)
     [] e.c = "NewOperator"  -> JNewOperator(e, st)
-    [] e.c = "ApplyOp"      -> JApply(OpEvent(e, st), st)
-    [] e.c = "IsApplicableOp" -> JIsApplicable(OpEvent(e, st), st)
+    [] e.c = "ApplyOp"      -> JRepeat(e, st, "apply", JApply(OpEvent(e, st), st))
+    [] e.c = "IsApplicableOp" -> JRepeat(e, st, "applicable", JIsApplicable(OpEvent(e, st), st))
     [] e.c = "AppTable"     -> JAppTable(e, st)
     [] e.c = "ApplyTable"   -> JApplyTable(e, st)
     [] OTHER                -> Fail("machinery:unknown-event:" \o e.c, st)
